@@ -3,6 +3,9 @@
 hook_begin        conditional compilation: the lexer discards preprocessor lines, so BOTH branches of an `#ifdef M ... #else ... #endif` would be extracted.
                   For every macro named in unit.json "undefined_macros" (test-only switches that production builds do not define) the tokens on the
                   lines of the `#ifdef M` branch are removed (and for `#ifndef M` the `#else` branch): the text a build without M compiles.
+hook_end          loop contracts of the teardown functions are keyed by the MAP the range-for scans (read from the loop's own header), not by the loop's ordinal:
+                  IORA_LOOP_<fn>_<k> over pendingConnects / receiveBuffers is renamed TDLOOP_pendingConnects / TDLOOP_receiveBuffers. A wake loop that is REMOVED therefore
+                  does not break the contract mapping (exit 2): the proofs run and the notify clauses at the end of every teardown path (TP4, TD8, TD5) decide.
 hook_before_loops RAII scope exit of lock guards / ParkGuard (shared text raii.py, see units/sync_ondata/plugin.py)."""
 import importlib.util
 import os
@@ -47,3 +50,22 @@ def hook_begin(t, rw):
 
 def hook_before_loops(t, rw):
     return _raii.hook_before_loops(t, rw)
+
+
+def hook_end(tokens, rw):
+    if rw.prefix not in ('Impl_teardownWaitOut', 'Impl_setTeardownFence'):
+        return tokens
+    for k, x in enumerate(tokens):
+        if x.kind == 'id' and x.text.startswith('IORA_LOOP_' + rw.prefix + '_'):
+            j = k - 1
+            which = None
+            while j > 0 and tokens[j].text != 'for':
+                if tokens[j].text == 'iora_pccur_begin':
+                    which = 'pendingConnects'
+                elif tokens[j].text == 'iora_rbcur_begin':
+                    which = 'receiveBuffers'
+                j -= 1
+            if which:
+                x.text = 'TDLOOP_' + which
+                rw.R.fire('loop contract keyed by scanned map: ' + which)
+    return tokens
